@@ -60,6 +60,10 @@ def run(ctx, rep):
         rep.rules[R5]['failed'] += 1
         rep.discharged -= 1
         rep.finding(R5, f.key.replace('C08.', 'C02.R5/C08.', 1), f.where, f.construct, f.msg)
+    R6 = rep.rule('C02.R6', 'an open finished branch is saturated: the bookkeeping that decides which nodes / constants / worlds a rule is still '
+                            'to be applied to never loses one (helper listeners folded as inductive steps; the C04.R7 folds)')
+    n = common.bookkeeping(ctx, rep, R6, 'C02.R6')
+    rep.floor('C02.R6', 'bookkeeping cases', n, 90)
 
 
 def r3(ctx, rep):
